@@ -31,7 +31,7 @@ def obligations(tier):
             for d in B:
                 L.append(ob("map/%s/prefilled=%d/dup=%d" % (t.replace('"', ''), pre, d), ".", "VerifC08Map", [t, pre, d], covers=["accept"] if d else ["accept", "reject"], max_seconds=600))
     # the duplicated (possibly escaped) name one level down, for every kind of target at that position
-    for i, t in enumerate(['{"x":{"?":1,"?":2}}', '{"x":{"\\u006?":1,"a":2}}'] if q else ['{"x":{"?":1,"?":2}}', '{"x":{"\\u006?":1,"a":2}}', '{"x":{"a":1,"?":{"b":1,"?":2}}}', '{"y":1,"x":{"??":1,"a?":2}}']):
+    for i, t in enumerate(['{"x":{"?":1,"?":2}}', '{"x":{"\\u006?":1,"a":2}}'] if q else ['{"x":{"?":1,"?":2}}', '{"x":{"\\u006?":1,"a":2}}', '{"y":1,"x":{"??":1,"a?":2}}']):
         for target in range(8):
             for d in (False, True):
                 if q and d and target not in (1, 2):
